@@ -190,3 +190,150 @@ package storage
 //@   safety index nil alloc allocbound
 //@   opt nomonitor = 1
 //@   loop 0 invariant 0 <= offset && endOffset == len(data)
+
+// ---------------------------------------------------------------------------------------
+// BlockRepository (C09, C10, C02)
+
+//@ type BlockRepository
+//@   guarded_by mutex : height lastHeaders heights
+
+//@ spec q(h) = h / 1000
+//@ spec bkey(f) = sprintf("spynode/blocks/%08x", f)
+//@ spec fileHas(f) = sthas(bkey(f))
+//@ spec fileBlob(f) = stblob(bkey(f))
+//@ spec fileN(f) = blobntok(fileBlob(f))
+// InvMem: the in-memory half of the representation invariant (B1, B2)
+//@ spec InvMem(r) = r.height >= 0 && len(r.lastHeaders) == r.height - 1000*q(r.height) + 1 && r.heights != nil
+// InvFull: every older file is present with exactly 1000 headers (B3)
+//@ spec InvFull(r) = forall(f, 0, q(r.height), fileHas(f) && hdrblob(fileBlob(f)) && fileN(f) == 1000)
+// the header the store/cache holds at height i (0 <= i <= height)
+//@ spec Hdr(r, i) = ite(q(i) < q(r.height), blobhdr(fileBlob(q(i)), i - 1000*q(i)), r.lastHeaders[i - 1000*q(r.height)])
+
+//@ func (*BlockRepository).read
+//@   serves C09 C10
+//@   opt nomonitor = 1
+//@   safety index nil
+//@   ensures notfound: !old(fileHas(q(height))) ==> result1 != nil
+//@   ensures content: result1 == nil ==> old(fileHas(q(height))) && !blobtail(fileBlob(q(height))) && len(result0) == fileN(q(height))
+//@        && forall(k, 0, len(result0), result0[k] == blobhdr(fileBlob(q(height)), k)) && fresharr(result0)
+//@   ensures frame: stsame() && same(repo.height, repo.lastHeaders, repo.heights) && oldrows(repo.lastHeaders)
+//@   loop 0 invariant fresharr(headers) && len(headers) == rpos(buf) && ntok(buf) == fileN(q(height)) && 0 <= rpos(buf) && rpos(buf) <= ntok(buf)
+//@   loop 0 invariant forall(k, 0, len(headers), headers[k] == blobhdr(fileBlob(q(height)), k))
+//@   loop 0 invariant stsame() && same(repo.height, repo.lastHeaders, repo.heights) && oldrows(repo.lastHeaders) && old(fileHas(q(height)))
+
+//@ spec memSame(r) = same(r.height, r.lastHeaders, r.heights) && oldrows(r.lastHeaders)
+
+//@ func (*BlockRepository).getHash
+//@   serves C09
+//@   opt nomonitor = 1
+//@   safety index nil
+//@   requires InvMem(repo) && InvFull(repo)
+//@   ensures beyond: height > repo.height || height < 0 ==> result1 != nil && result0 == nil
+//@   ensures value: 0 <= height && height <= repo.height && result1 == nil ==> result0 != nil && *result0 == BlockHashOf(Hdr(repo, height))
+//@   ensures cached: 0 <= height && height <= repo.height && q(height) == q(repo.height) ==> result1 == nil
+//@   ensures frame: stsame() && memSame(repo)
+
+//@ func (*BlockRepository).getHeader
+//@   serves C09
+//@   opt nomonitor = 1
+//@   safety index nil
+//@   requires InvMem(repo) && InvFull(repo)
+//@   ensures beyond: height > repo.height || height < 0 ==> result1 == ErrInvalidHeight && result0 == nil
+//@   ensures value: 0 <= height && height <= repo.height && result1 == nil ==> result0 != nil && *result0 == Hdr(repo, height)
+//@   ensures cached: 0 <= height && height <= repo.height && q(height) == q(repo.height) ==> result1 == nil
+//@   ensures frame: stsame() && memSame(repo)
+
+//@ func (*BlockRepository).getTime
+//@   serves C09
+//@   opt nomonitor = 1
+//@   safety index nil
+//@   requires InvMem(repo) && InvFull(repo)
+//@   ensures beyond: height > repo.height || height < 0 ==> result0 == 0 && result1 == nil
+//@   ensures cached: 0 <= height && height <= repo.height && q(height) == q(repo.height) ==> result1 == nil && result0 == Hdr(repo, height).Timestamp
+//@   ensures frame: stsame() && memSame(repo)
+
+//@ spec fileIs(f, s) = fileHas(f) && hdrblob(fileBlob(f)) && fileN(f) == len(s) && forall(k, 0, len(s), blobhdr(fileBlob(f), k) == s[k])
+
+//@ func (*BlockRepository).save
+//@   serves C09 C10
+//@   opt nomonitor = 1
+//@   safety index nil
+//@   ensures written: result == nil ==> fileIs(q(repo.height), repo.lastHeaders) && stsameexcept(bkey(q(repo.height)))
+//@   ensures failed: result != nil ==> stsame()
+//@   ensures frame: memSame(repo)
+//@   loop 0 invariant 0 <= _i && _i <= len(repo.lastHeaders) && ntok(buf) == _i && rpos(buf) == 0 && stsame() && memSame(repo)
+//@   loop 0 invariant forall(p, 0, _i, tokkind(buf, p) == objkind(wire.BlockHeader) && tokval(buf, p) == enc(repo.lastHeaders[p]))
+
+//@ func (*BlockRepository).Save
+//@   serves C09 C10
+//@   atomic mutex
+//@   ensures written: result == nil ==> fileIs(q(repo.height), repo.lastHeaders) && stsameexcept(bkey(q(repo.height)))
+//@   ensures failed: result != nil ==> stsame()
+//@   ensures frame: memSame(repo)
+
+//@ func (*BlockRepository).Hash
+//@   serves C09
+//@   atomic mutex
+//@   requires InvMem(repo) && InvFull(repo)
+//@   ensures beyond: height > repo.height || height < 0 ==> result1 != nil && result0 == nil
+//@   ensures value: 0 <= height && height <= repo.height && result1 == nil ==> result0 != nil && *result0 == BlockHashOf(Hdr(repo, height))
+//@   ensures cached: 0 <= height && height <= repo.height && q(height) == q(repo.height) ==> result1 == nil
+//@   ensures frame: stsame() && memSame(repo)
+
+//@ func (*BlockRepository).Header
+//@   serves C09
+//@   atomic mutex
+//@   requires InvMem(repo) && InvFull(repo)
+//@   ensures tip: height == -1 ==> result1 == nil && result0 != nil && *result0 == Hdr(repo, repo.height)
+//@   ensures beyond: height > repo.height || height < -1 ==> result1 == ErrInvalidHeight && result0 == nil
+//@   ensures value: 0 <= height && height <= repo.height && result1 == nil ==> result0 != nil && *result0 == Hdr(repo, height)
+//@   ensures cached: 0 <= height && height <= repo.height && q(height) == q(repo.height) ==> result1 == nil
+//@   ensures frame: stsame() && memSame(repo)
+
+//@ func (*BlockRepository).Time
+//@   serves C09
+//@   atomic mutex
+//@   requires InvMem(repo) && InvFull(repo)
+//@   ensures beyond: height > repo.height || height < 0 ==> result0 == 0 && result1 == nil
+//@   ensures cached: 0 <= height && height <= repo.height && q(height) == q(repo.height) ==> result1 == nil && result0 == Hdr(repo, height).Timestamp
+//@   ensures frame: stsame() && memSame(repo)
+
+//@ func (*BlockRepository).LastHeight
+//@   serves C09
+//@   atomic mutex
+//@   ensures value: result == repo.height && memSame(repo)
+
+//@ func (*BlockRepository).LastHash
+//@   serves C09 C02
+//@   atomic mutex
+//@   safety index nil
+//@   requires InvMem(repo)
+//@   ensures value: result != nil && *result == BlockHashOf(Hdr(repo, repo.height)) && memSame(repo)
+
+//@ func (*BlockRepository).Contains
+//@   serves C09 C02
+//@   atomic mutex
+//@   requires hash != nil
+//@   ensures value: result == has(repo.heights, *hash) && memSame(repo)
+
+//@ func (*BlockRepository).Height
+//@   serves C09 C02
+//@   atomic mutex
+//@   requires hash != nil
+//@   ensures value: result1 == has(repo.heights, *hash) && (result1 ==> result0 == repo.heights[*hash]) && memSame(repo)
+
+//@ func (*BlockRepository).Add
+//@   serves C09 C10 C02
+//@   atomic mutex
+//@   safety index nil
+//@   requires header != nil && InvMem(repo) && InvFull(repo)
+//@   ensures grows: result == nil ==> repo.height == old(repo.height) + 1 && Hdr(repo, repo.height) == *header
+//@   ensures keeps_cache: result == nil && old(len(repo.lastHeaders)) < 1000 ==> forall(i, 0, repo.height, Hdr(repo, i) == old(Hdr(repo, i)))
+//@   ensures keeps_rollover_old: result == nil && old(len(repo.lastHeaders)) == 1000 ==> stsameexcept(bkey(q(old(repo.height))))
+//@   ensures no_write_without_rollover: old(len(repo.lastHeaders)) < 1000 ==> stsame()
+//@   ensures keeps_rollover_saved: result == nil && old(len(repo.lastHeaders)) == 1000 ==> q(repo.height) == q(old(repo.height)) + 1
+//@        && forall(k, 0, 1000, blobhdr(fileBlob(q(old(repo.height))), k) == old(repo.lastHeaders[k]))
+//@   ensures indexed: result == nil ==> has(repo.heights, BlockHashOf(*header)) && repo.heights[BlockHashOf(*header)] == repo.height && same(repo.heights)
+//@        && forall(x bitcoin.Hash32, x != BlockHashOf(*header) ==> has(repo.heights, x) == old(has(repo.heights, x)) && repo.heights[x] == old(repo.heights[x]))
+//@   ensures failed: result != nil ==> stsame() && memSame(repo)
+//@   ensures inv: InvMem(repo) && InvFull(repo)
